@@ -470,7 +470,7 @@ func (w *World) ApplyRender(st *Step) *RenderOutcome {
 	}
 	wr, sw := newSimWriter(st.D, w.Y)
 	if len(st.Plan) >= 2 {
-		sw.FaultAt, sw.Mode = st.Plan[0], pick(4, st.Plan[1])
+		sw.FaultAt, sw.Mode = st.Plan[0], pick(NFaultModes, st.Plan[1])
 		if len(st.Plan) >= 3 {
 			sw.Frac = pick(100, st.Plan[2])
 		}
